@@ -15,6 +15,8 @@ _FUNCS = {}
 def apply_uf(name, data, outlen=4):
     items = _lift_bytes(data)
     n = len(items)
+    if outlen == 0:
+        return b""
     if n == 0:
         key = (name, 0, outlen)
         if key not in _FUNCS:
@@ -35,6 +37,8 @@ def apply_uf(name, data, outlen=4):
 
 
 def concrete_uf(name, data, outlen=4, table=None):
+    if outlen == 0:
+        return b""
     if table and name in table and bytes(data).hex() in table[name]:
         return bytes.fromhex(table[name][bytes(data).hex()])
     h = hashlib.blake2b(bytes(data), digest_size=max(1, outlen), person=name.encode()[:16]).digest()
